@@ -1759,8 +1759,11 @@ class InTablePhase(Phase):
     def startTagTable(self, token):
         self.parser.parseError("unexpected-start-tag-implies-end-tag",
                                {"startName": "table", "endName": "table"})
+        # The token is ignored only if there is no table to close (which
+        # can only happen when parsing a fragment)
+        ignored = not self.tree.elementInScope("table", variant="table")
         self.parser.phase.processEndTag(impliedTagToken("table"))
-        if not self.parser.innerHTML:
+        if not ignored:
             return token
 
     def startTagStyleScript(self, token):
